@@ -70,7 +70,13 @@ import HexVerif.X.Sem
     needs areg, X the left one: for pure callees the orders differ in the step counter and the
     call log only, which `Rep` ignores.  The stage-4 induction (`C01_stage4_partial`) is stated
     over the fragment `okS5 G.pk` (`G.pk = false`: the fragment of V2).
-  Open: calls of impure procedures in operands (X leaves the order open only if the other operand
+  * Arrays: the classes V2 and V3 include GLOBAL ARRAYS whose length is a literal: subscripts `a[i]`
+    with a call-free index anywhere in call-free expressions (and as operands next to pure calls),
+    and `a[i] := e` with call-free `i`, `e`.  `Rep` relates the pointer word behind the array's
+    label and every ASSIGNED cell to the reference state; array cells are excluded from every
+    "the callee leaves the caller's memory alone" clause.  xcmp emits no bounds checks: the
+    theorem speaks of defined runs only, and X leaves out-of-range subscripts undefined.
+  Open: array formals and string literals, calls of impure procedures in operands (X leaves the order open only if the other operand
   is constant), calls inside actuals, `val`/array declarations and formals, subscripts and strings;
   replacing the reflective checks by a proof that they always succeed.
 -/
@@ -292,7 +298,8 @@ theorem C01_stage4_partial (G : C01s.GCtx) (ok : G.OK) (fuel : Nat) :
 
 /-- **`C01_v2_partial`.**  The full C01 statement for the programs that satisfy the decidable
     predicate `C01s.v2Ok`: procedures and functions with `val` formals (recursion allowed), global
-    and local `var`s, bodies in the stage-4 fragment, whose compilation passes `C01s.v2Check`. -/
+    `var`s and arrays of literal length, local `var`s, bodies in the stage-4 fragment (with
+    subscripts and assignments to array elements), whose compilation passes `C01s.v2Check`. -/
 theorem C01_v2_partial (P : X.Program) (inp : X.Input) (n : Nat) (β : X.Behaviour) (img : Asm.Image)
     (hr : C01s.v2Ok P = true) :
     X.run P inp n = .defined β →
@@ -375,6 +382,42 @@ example : ∃ img, Xcmp.compile demoV3 = .ok img := by
   | ok img => exact ⟨img, rfl⟩
   | error e =>
     have : (match Xcmp.compile demoV3 with | .ok _ => true | .error _ => false) = true := by decide +kernel
+    rw [h] at this
+    simp at this
+
+/-- `var g; array a[10]; array b[5];
+     proc fill(val n) is var i; { i := 0; while i < n do { a[i] := i + i; i := i + 1 } }
+     func sum(val n) is var i; var s; { i := 0; s := 0; while i < n do { s := s + a[i]; i := i + 1 }; return s }
+     proc main() is var r; { fill(10); b[2] := a[3] + 1; r := sum(10) + b[2]; g := r; 1(b[2] + 48, 0); 0(r) }` -/
+def demoArr : X.Program :=
+  { globals := [.var "g", .array "a" (.num 10), .array "b" (.num 5)],
+    procs := [
+      { isFunc := false, name := "fill", formals := [.val "n"], locals := [.var "i"],
+        body := .seq [.assign "i" (.num 0),
+                      .while (.bin .ls (.name "i") (.name "n"))
+                        (.seq [.assignSub "a" (.name "i") (.bin .plus (.name "i") (.name "i")), .assign "i" (.bin .plus (.name "i") (.num 1))])] },
+      { isFunc := true, name := "sum", formals := [.val "n"], locals := [.var "i", .var "s"],
+        body := .seq [.assign "i" (.num 0), .assign "s" (.num 0),
+                      .while (.bin .ls (.name "i") (.name "n"))
+                        (.seq [.assign "s" (.bin .plus (.name "s") (.sub "a" (.name "i"))), .assign "i" (.bin .plus (.name "i") (.num 1))]),
+                      .ret (.name "s")] },
+      { isFunc := false, name := "main", formals := [], locals := [.var "r"],
+        body := .seq [.call "fill" [.num 10],
+                      .assignSub "b" (.num 2) (.bin .plus (.sub "a" (.num 3)) (.num 1)),
+                      .assign "r" (.bin .plus (.call "sum" [.num 10]) (.sub "b" (.num 2))),
+                      .assign "g" (.name "r"),
+                      .syscall 1 [.bin .plus (.sub "b" (.num 2)) (.num 48), .num 0], .syscall 0 [.name "r"]] }] }
+
+/-! Non-vacuity for arrays: `demoArr` (two global arrays; a procedure that fills one, a pure
+    function that sums it, constant and computed subscripts, a call next to a subscript) is in
+    the class V3, has a defined behaviour (one character written, exit value 97) and compiles. -/
+example : C01s.v3Ok demoArr = true := by decide +kernel
+example : behaviourIs (X.run demoArr ⟨[], fun _ => []⟩ 5000) 97 1 = true := by decide +kernel
+example : ∃ img, Xcmp.compile demoArr = .ok img := by
+  cases h : Xcmp.compile demoArr with
+  | ok img => exact ⟨img, rfl⟩
+  | error e =>
+    have : (match Xcmp.compile demoArr with | .ok _ => true | .error _ => false) = true := by decide +kernel
     rw [h] at this
     simp at this
 
